@@ -345,6 +345,26 @@ def grad_execs(ctx, r, nrep, with_props=True, with_energy_grads=True):
                         if with_energy_grads:
                             cmds.append({"op": "egrad", "obj": 1})       # read-only queries do not disturb each other
                     execs.append((len(cmds) * n * dim + 10, cmds))
+    # one object re-built with another segment count (shrinking and growing) between gradient queries: the adjoint workspaces and cached
+    # factors of the earlier size must not show through (each result is judged against the exact adjoint of the CURRENT problem)
+    for rep in range(nrep):
+        for order in gen.ORDERS:
+            ns = GRAD_NS[order]
+            for dim in (1, 2, 4):
+                for (n1, n2) in ((ns[-1], 1), (ns[-1], 2), (2, ns[-1]), (ns[-2], ns[-1]), (3, 2), (1, 3)):
+                    cmds = [{"op": "reset"}]
+                    for stage, n in enumerate((n1, n2, n1)):
+                        pr = r.problem(order, dim, n, dcls=r.choice(["grid", "real"]), dyadic=True)
+                        how = "ctor_durs" if stage == 0 else r.choice(["upd_durs", "upd_pts"])
+                        cmds.append(gen.build_cmd(1, pr, how, 6))
+                        if with_props:
+                            for kind in ("dense", "real"):
+                                g, t = upstream(r, order, n, dim, kind)
+                                cmds.append(prop_cmd(1, g, t, r.choice(["ref", "ret"])))
+                        if with_energy_grads:
+                            cmds += [{"op": "egrad", "obj": 1, "via": r.choice(["ref", "parts"])}, {"op": "epartial", "obj": 1},
+                                     {"op": "prop_epartial", "obj": 1}]
+                    execs.append((len(cmds) * max(n1, n2) * dim + 10, cmds))
     return execs
 
 
@@ -367,7 +387,8 @@ def plan_grad(ctx, props, with_props, with_eg, rule):
 def plan_C05(ctx):
     return plan_grad(ctx, {"C05"}, True, False,
                      "3 orders x 5 segment counts (N=1, N=2 always) x dimensions 1..5 (both septic branches); upstream gradients: every unit "
-                     "vector for N<=2, D<=2, plus dense dyadic, dense real, sparse, zero, duration-only; both overloads; one repeated call; each "
+                     "vector for N<=2, D<=2, plus dense dyadic, dense real, sparse, zero, duration-only; both overloads; one repeated call; objects "
+                     "re-built with a smaller / larger segment count between propagations; each "
                      "result compared entry-wise with the exact transpose-Jacobian product (implicit differentiation of the defining equations)")
 
 
